@@ -16,10 +16,10 @@ func init() {
 	trieOracles["C18"] = oracleC18
 	trieOracles["C19"] = oracleC19
 	mc := "model_checking"
-	register(&Check{ID: "C13", Level: mc, Run: runC13, QuickBudget: 150 * time.Second, ThoroughBudget: 40 * time.Minute})
-	register(&Check{ID: "C14", Level: mc, Run: runC14, QuickBudget: 150 * time.Second, ThoroughBudget: 40 * time.Minute})
-	register(&Check{ID: "C18", Level: mc, Run: runC18, QuickBudget: 150 * time.Second, ThoroughBudget: 40 * time.Minute})
-	register(&Check{ID: "C19", Level: mc, Run: runC19, QuickBudget: 150 * time.Second, ThoroughBudget: 40 * time.Minute})
+	register(&Check{ID: "C13", Level: mc, Run: runC13, QuickBudget: 400 * time.Second, ThoroughBudget: 40 * time.Minute})
+	register(&Check{ID: "C14", Level: mc, Run: runC14, QuickBudget: 400 * time.Second, ThoroughBudget: 40 * time.Minute})
+	register(&Check{ID: "C18", Level: mc, Run: runC18, QuickBudget: 400 * time.Second, ThoroughBudget: 40 * time.Minute})
+	register(&Check{ID: "C19", Level: mc, Run: runC19, QuickBudget: 400 * time.Second, ThoroughBudget: 40 * time.Minute})
 	Replayers["c13"] = replayC13
 }
 
@@ -81,6 +81,7 @@ func evalC13(w *h.Worker, c *h.Case, qs []string, inst string, record bool) *h.V
 		sts[m] = st
 		if record {
 			w.Evals++
+			w.Tick()
 			stream, _ := b.ST.Marshal()
 			w.State(h.Hash64(stream, []byte(cc.Opt.String()), []byte(c.Enc)), len(b.Kept) >= 2)
 			if m == 0 {
@@ -339,6 +340,7 @@ func runC14(r *h.Run) {
 				continue
 			}
 			w.Evals++
+			w.Tick()
 			w.State(h.Hash64([]byte(l.Name), stream), len(u.keys) >= 2)
 			qs := append(append([]string{}, u.qs...), u.keys...)
 			for _, q := range qs {
@@ -566,7 +568,10 @@ func runC19(r *h.Run) {
 	// String() is two orders of magnitude more expensive than a lookup: the
 	// variable part under scaffolds is one key smaller than in C01
 	p.quickScafK, p.thoroughScafK, p.thoroughIDk = 2, 3, 5
-	r.Rule = "same space as C01 (variable part under scaffolds: K(U21,2) quick / K(U21,3) thorough) with the short-table scaffolds of every reachable table size and their mixed variants (short and 17-bit nodes side by side), bigroot, big2; values are distinct-per-id integers / strings so leaf lines parse unambiguously; oracle: no panic; the #id tokens are exactly {0..NodeCnt-1}, each once; the =value suffixes top to bottom equal the retained values in key order; a loaded instance renders the identical string"
+	// ... and quadratic in the number of keys (about 1 s for 5 000 keys, 45 s for
+	// 70 000): key lists beyond 8 000 keys are left to the other trie checks
+	p.maxListKeys = 8000
+	r.Rule = "same space as C01 (variable part under scaffolds: K(U21,2) quick / K(U21,3) thorough) with the short-table scaffolds of every table size whose filler has at most 8 000 keys and their mixed variants (short and 17-bit nodes side by side), bigroot, big2; values are distinct-per-id integers / strings so leaf lines parse unambiguously; oracle: no panic; the #id tokens are exactly {0..NodeCnt-1}, each once; the =value suffixes top to bottom equal the retained values in key order; a loaded instance renders the identical string"
 	r.Assumptions = append([]string{"the rendering is parsed by its current line format: one line per node, the node id as #<digits>, a leaf value after the first '=' that follows the id"}, commonAssumptions...)
 	runTriePass(r, buildPhases(r, p), oracleC19, nil)
 }
